@@ -1,0 +1,24 @@
+//go:build verif
+
+package app
+
+import "net"
+
+// SimListen and SimDial, when set by a simulation harness, replace the TCP
+// listener / dialer of the socket proxy with in-memory connections.
+var SimListen func(addr string) (net.Listener, bool)
+var SimDial func(addr string) (net.Conn, bool, error)
+
+func simListen(addr string) (net.Listener, bool) {
+	if SimListen == nil {
+		return nil, false
+	}
+	return SimListen(addr)
+}
+
+func simDial(addr string) (net.Conn, bool, error) {
+	if SimDial == nil {
+		return nil, false, nil
+	}
+	return SimDial(addr)
+}
